@@ -9,6 +9,7 @@ import KikiVerif.Model.Hash
 import KikiVerif.Model.Oset
 import KikiVerif.Spec.Lex
 import KikiVerif.Proofs.Valid
+import KikiVerif.Proofs.Tight
 
 open KikiVerif
 
@@ -113,7 +114,7 @@ def section_ (ws : List String) (tag : String) : String :=
   | _ :: x :: _ => if x ∈ ["R", "S", "A", "G"] then "" else x
   | _ => ""
 
-def doValid (line : String) : String :=
+def doValidWith (k : LR.Grammar Nat Nat → Nat → Valid.Cert → String) (line : String) : String :=
   match words line with
   | nT :: nN :: st :: ss :: rest =>
     let nT := nT.toNat!; let nN := nN.toNat!
@@ -127,8 +128,16 @@ def doValid (line : String) : String :=
     let gotos := ((section_ rest "G").splitOn "|").map fun s => (splitOnNE s ",").map fun c => if c = "-" then none else some c.toNat!
     let C : Valid.Cert := { nT := nT, start := ss.toNat!, states := states, actions := actions, gotos := gotos,
                             first := Valid.computeFirst g nT nN }
-    if Valid.validB g nN C then "(valid true)" else s!"(valid false {Sexp.hex (Valid.explain g nN C).toList})"
+    k g nN C
   | _ => "(bad-request)"
+
+def doValid : String → String := doValidWith fun g nN C =>
+  if Valid.validB g nN C then "(valid true)" else s!"(valid false {Sexp.hex (Valid.explain g nN C).toList})"
+
+/-- `tight`: same request; the second validator (`Proofs/Tight.tightB`: every item in the closure of its
+state's kernel, no empty target state) -/
+def doTight : String → String := doValidWith fun g nN C =>
+  s!"(tight {Valid.tightB g nN C} productive {Valid.productiveB g})"
 
 /-- `machine-num <hexsrc>`: the model's automaton for a grammar source, as numbers with
 declaration-index codes (the `S` section of a `valid` request), plus a FIRST table (`F`).
@@ -240,6 +249,7 @@ def main (args : List String) : IO UInt32 := do
     | ["hash"] => pure doHash
     | ["drive"] => pure doDrive
     | ["valid"] => pure doValid
+    | ["tight"] => pure doTight
     | ["machine-num"] => pure doMachineNum
     | ["oset"] => pure doOset
     | ["chars"] => pure doChars
